@@ -85,7 +85,7 @@ class Reg:
     def new_id(self):
         i = self.next_id
         self.next_id += 1
-        assert i < 200
+        assert i < 96   # identities of entries (argument runners exist for 0..95 only)
         return i
 
     def bench(self, modpath, raw, display=None, opts="-", kind="p", vals=(), line=None, col=1):
@@ -232,7 +232,7 @@ def rand_registry(rng, max_items=10, max_args=5, p_args=0.35, p_generic=0.3, p_g
                     consts.append(c)
             if types is None and consts is None:
                 types = [0]
-            if r.next_id + (len(types or [1]) * len(consts or [1])) >= 190:
+            if r.next_id + (len(types or [1]) * len(consts or [1])) >= 90:
                 continue
             r.generic_fn(modpath, raw, types=types, consts=consts, display=rng.choice(CUSTOM) if custom else None,
                          opts=rand_opts(rng), kind=kind, vals=vals)
